@@ -453,7 +453,7 @@ pub fn run(rep: &mut Report) {
         Some(v) => std::env::set_var("L4V_JOBS", v),
         None => std::env::remove_var("L4V_JOBS"),
     }
-    let n = if rep.tier == "thorough" { 200_000 } else { 6_000 };
+    let n = if rep.tier == "thorough" { 400_000 } else { 40_000 };
     run_cases(rep, "ansi", n, ansi_patterns);
     rep.exhaustive = Some(false);
     rep.set_extra("exhaustive_parts", json!("243 styles and the 216-cell environment matrix are enumerated completely; highlight patterns are sampled"));
